@@ -16,7 +16,9 @@ theorem sqFinal_resolve (h : SQEntry) (r : List SQEntry) :
     sqFinal (resolveFut h :: r) = sqFinal (h :: r) := by
   cases h <;> simp [sqFinal, resolveFut]
   rename_i i
-  by_cases hi : i % 2 = 0 <;> simp [hi]
+  by_cases h1 : i % 4 = 1
+  · simp [h1, sqValues]
+  · by_cases h3 : i % 4 = 3 <;> simp [h1, h3, sqValues]
 
 def heldList : Option SQEntry → List SQEntry
   | none => []
@@ -43,6 +45,7 @@ theorem sqCollect_split (r : List SQEntry) (acc : List Nat) :
       · simpa [sqCollect] using h2
     | pendingFut i => exact ⟨_, by simp [sqCollect, heldList], rfl⟩
     | failedFut i => exact ⟨_, by simp [sqCollect, heldList], rfl⟩
+    | cancelledFut i => exact ⟨_, by simp [sqCollect, heldList], rfl⟩
     | endMark => exact ⟨_, by simp [sqCollect, heldList], rfl⟩
     | errorMark => exact ⟨_, by simp [sqCollect, heldList], rfl⟩
 
@@ -83,6 +86,15 @@ theorem sqRun_prefix (n : Nat) (held : Option SQEntry) (es : List SQEntry) :
         have e1 : batchesStep held es = .raise true := by
           rcases key _ r held es hl with ⟨h1, h2⟩ | ⟨h1, h2⟩ <;> simp [batchesStep, h1, h2]
         simp [sqRun, e1, sqDelivered]
+      | cancelledFut i =>
+        have e1 : batchesStep held es = sqSkip r := by
+          rcases key _ r held es hl with ⟨h1, h2⟩ | ⟨h1, h2⟩ <;> simp [batchesStep, h1, h2]
+        have hskip : ∀ l : List SQEntry, sqSkip l = .park ∨ sqSkip l = .finish ∨ sqSkip l = .raise false := by
+          intro l
+          induction l with
+          | nil => simp [sqSkip]
+          | cons a l ih => cases a <;> simp [sqSkip, ih]
+        rcases hskip r with h | h | h <;> simp [sqRun, e1, h, sqDelivered]
       | endMark =>
         have e1 : batchesStep held es = .finish := by
           rcases key _ r held es hl with ⟨h1, h2⟩ | ⟨h1, h2⟩ <;> simp [batchesStep, h1, h2]
